@@ -435,7 +435,16 @@ def use_profile(f):
             return origin(e['e'], depth)
         if k in ('call', 'mcall'):
             c = callee(e)
-            return ('result of ' + short(c)) if c else 'expr'
+            if not c:
+                return 'expr'
+            # which inputs the producing call was given (one level): tells `is_equal(p.x, q.x)` from `is_equal(p.y, q.y)`, `query(cfg.q_a)` from `query(cfg.q_b)`
+            inner = []
+            if depth < 3:
+                for a in ([e['recv']] if k == 'mcall' else []) + list(e.get('args', [])):
+                    o = origin(a, depth + 3)
+                    if o.startswith(('#', 'const ')) and o != '#0':
+                        inner.append(o)
+            return 'result of ' + short(c) + ('(' + ', '.join(inner) + ')' if inner else '')
         if k in ('bin', 'un') and e.get('f'):
             return 'result of ' + short(norm_(e['f'])) + ':' + str(e.get('op'))
         if k == 'field' and not str(e.get('n', '')).isdigit():
